@@ -26,6 +26,8 @@ def cases(tier, seed):
     for k in range(n):
         c = layout_gen.gdefcurs_font(rng)
         c.update({"cid": f"c18-{seed}-{k}", "lib": rng.choice(["ufoLib2", "defcon"]), "writers": "default"})
+        if k % 4 == 1:
+            c["via"] = rng.choice(["vf", "vf-merge", "interp"])
         if k % 4 == 3:
             # the same writer objects serve several fonts in a row (as they do for the masters of a family)
             c["writers"] = ["kern", "mark", "gdef", "curs"]
@@ -96,7 +98,7 @@ def execute(case):
             rec["_fea"] = fea
             recs.append(rec)
         return recs
-    f2, fea, data = layout_exec.compile_layout(case)
+    f2, fea, data = layout_exec.compile_layout(case, via=case.get("via", "static"))
     rec = layout_exec.gdefcurs_record(case, f2, case["cid"])
     rec["_fea"] = fea
     return [rec]
